@@ -205,14 +205,21 @@ fn cmd_check(args: &[String]) {
         let t_run = real_now();
         let (ref_res, _, _) = run_plan(&g.reference, &sandbox, true, false, &|_| vec![]);
         let mut line = run_line(&g, &g.reference, true, &ref_res.rec, &[]);
-        line["wall_ms"] = json!(((real_now() - t_run) * 1000.0) as u64);
+        let ref_wall_ms = ((real_now() - t_run) * 1000.0) as u64;
+        line["wall_ms"] = json!(ref_wall_ms);
         emit(line);
         if ref_res.rec.outcome.class == "harness" {
             emit(json!({"t": "harness", "group": g.index, "plan": g.reference, "detail": ref_res.rec.outcome.detail}));
             continue;
         }
         let reference = ref_res.rec;
-        for v in workload::variations(&g, &reference) {
+        // bounds for the variations scale with what the reference run needed
+        let ref_wall_s = ref_wall_ms as f64 / 1000.0;
+        let max_steps = exec::MAX_STEPS.max(reference.steps * 50);
+        let cpu_limit = child::CPU_LIMIT_S.max((ref_wall_s * 40.0).ceil() as u64);
+        for mut v in workload::variations(&g, &reference) {
+            v.max_steps = Some(max_steps);
+            v.cpu_limit_s = Some(cpu_limit);
             if real_now() - t0 > budget_s {
                 skipped += 1;
                 break;
